@@ -131,6 +131,55 @@ def execute_seam(case):
     return {"ok": not fails, "failures": fails, "outcome": "+".join(sorted(outcomes)), "nontrivial": True, "n": len(case["cuts"]), "hist": outcomes}
 
 
+def execute_large(case):
+    """cuts of an image whose requests exceed 16 MiB / whose size exceeds 64 MiB (size-dependent read paths)"""
+    tc, L, P = case["type"], case["L"], case["P"]
+    info = synth.TYPE_INFO[tc]
+    blob = np.random.default_rng(L).integers(0, 127, size=(L, P * info["bps"]), dtype="uint8")
+    im = synth.image_spec("HH", None, L, P, tc, samples=[blob[k].tobytes() for k in range(L)])
+    spec = synth.product_spec("1.1" if tc == "C*8" else "1.5", images=[im])
+    files, _ = synth.build(spec)
+    name = synth.file_names(spec)["img"][0]
+    full = files[name]
+    reclen = info["prefix"] + P * info["bps"]
+    n = len(full)
+    assert n == 720 + L * reclen
+    pts = {0, 1, 719, 720, 721, n - 1, n}
+    for k in sorted({0, 1, L // 2, L - 2, L - 1}):
+        base = 720 + k * reclen
+        pts |= {base - 1, base, base + 1, base + 12, base + info["prefix"] - 1, base + info["prefix"], base + info["prefix"] + 1, base + info["prefix"] + (reclen - info["prefix"]) // 2, base + reclen - 2}
+    for p2 in range(20, 28):  # block-size multiples
+        pts |= {2**p2 - 1, 2**p2, 2**p2 + 1}
+    cuts = sorted(c for c in pts if 0 <= c <= n)
+    fails, outcomes = [], {}
+    with harness.Product(files, "mcfs") as prod:
+        for rpc in case["rpcs"]:
+            for cut in cuts:
+                prod.put(name, full[:cut])
+                kw = {"records_per_chunk": rpc} if rpc else {}
+                what = f"{tc} {L}x{P} ({n} bytes) cut at {cut} rpc={rpc or 'default'}"
+                try:
+                    tree = prod.open(use_cache=False, **kw)
+                except BaseException as e:
+                    out = f"raises:{type(e).__name__}"
+                else:
+                    var = tree["imagery/HH/data"]
+                    try:
+                        vals = np.asarray(var.values)
+                        whole = tuple(var.shape) == (L, P) and vals.shape == (L, P) and vals.view("uint8").reshape(L, -1)[:: max(L // 7, 1)].tobytes() == blob.view(">u2" if tc == "IU2" else ">f4").astype("=u2" if tc == "IU2" else "=f4").view("uint8").reshape(L, -1)[:: max(L // 7, 1)].tobytes()
+                        out = "returned-complete" if whole else "returned-wrong"
+                    except BaseException as e:
+                        out = "returned-unloadable"
+                outcomes[out] = outcomes.get(out, 0) + 1
+                bad = (cut < n and not out.startswith("raises")) or (cut == n and out != "returned-complete")
+                if bad:
+                    f = {"sig": {"kind": "large-cut-not-noticed" if cut < n else "large-intact-fails", "out": out}, "detail": f"{what}: {out}", "case": {**case, "fn": "execute_large"}}
+                    if core.jkey(f["sig"]) not in {core.jkey(x["sig"]) for x in fails}:
+                        fails.append(f)
+        prod.put(name, full)
+    return {"ok": not fails, "failures": fails, "outcome": "+".join(sorted(outcomes)), "nontrivial": True, "n": len(cuts) * len(case["rpcs"]), "hist": outcomes}
+
+
 def execute_missing(case):
     tc = case["type"]
     spec, files = make_product(tc)
@@ -231,6 +280,9 @@ def plan(tier):
                 for fs in ("mcfs", "local", "memory"):
                     for rpc in (1, 1024):
                         cases.append({"fn": "execute_missing", "type": tc, "missing": missing, "use_cache": use_cache, "fs": fs, "rpc": rpc})
+    for tc, L, P in (("IU2", 64, 150000), ("C*8", 40, 60000), ("IU2", 600, 60000)) if tier == "quick" else (("IU2", 64, 150000), ("C*8", 40, 60000), ("IU2", 600, 60000), ("C*8", 1100, 9000), ("IU2", 5000, 64)):
+        for rpcs in ((None, 8), (64, 4096)):
+            cases.append({"fn": "execute_large", "type": tc, "L": L, "P": P, "rpcs": list(rpcs)})
     return cases
 
 
@@ -239,7 +291,7 @@ def run(res, tier, seed):
         "every truncation length 0..size of a 4x3 image x rpc{1,2,4,5,1024} x type through sar_image.open_image, and through"
         " open_alos2 at every length (thorough) or all record/field boundaries +-1 + every 16th byte (quick); leader and"
         " volume directory cut at every length (thorough) / every layout field boundary +-1 + stride (quick); every single"
-        " missing file x use_cache x 3 filesystems. A case is a batch of cuts of one file; all are non-trivial (each cut is"
+        " missing file x use_cache x 3 filesystems; images of 19 / 19 / 72 MB cut at the boundaries +-1 of the first, middle and last records, inside their" " prefixes and pixel data and at every power of two 2^20..2^27 +-1, x rpc {default, 8, 64, 4096}. A case is a batch of cuts of one file; all are non-trivial (each cut is"
         " a distinct byte length and is executed on the real code)."
     )
     res.assumptions = ["a truncated file is modelled as a shorter file (reads return fewer bytes), as on local and object stores", "promptness = number of filesystem events <= intact open (deterministic); wall time is not an oracle"]
